@@ -56,17 +56,25 @@ func connectOpt(connack []byte, smallBuffers bool) (*session, error) {
 	cm.SetCleanSession(true)
 	cm.SetClientID([]byte(s.id))
 	cm.SetKeepAlive(120)
+	if err := s.dial(cm, connack); err != nil {
+		s.close()
+		return nil, err
+	}
+	return s, nil
+}
+
+// dial connects s.cl (a fresh Client, or the same object once more after a
+// Disconnect) to the fake server and answers its CONNECT.
+func (s *session) dial(cm *message.ConnectMessage, connack []byte) error {
 	res := make(chan error, 1)
-	go func() { res <- s.cl.Connect(fs.URI(), cm) }()
-	srv, err := fs.Accept(5 * time.Second)
+	go func() { res <- s.cl.Connect(s.fs.URI(), cm) }()
+	srv, err := s.fs.Accept(5 * time.Second)
 	if err != nil {
-		fs.Close()
-		return nil, fmt.Errorf("accept: %v", err)
+		return fmt.Errorf("accept: %v", err)
 	}
 	s.srv = srv
 	if _, err := srv.Take(func(p *codec.Packet) bool { return p.Type == codec.CONNECT }, 5*time.Second); err != nil {
-		s.close()
-		return nil, fmt.Errorf("no CONNECT from the client: %v", err)
+		return fmt.Errorf("no CONNECT from the client: %v", err)
 	}
 	if connack == nil {
 		connack = []byte{0x20, 2, 0, 0}
@@ -75,14 +83,25 @@ func connectOpt(connack []byte, smallBuffers bool) (*session, error) {
 	select {
 	case err := <-res:
 		if err != nil {
-			s.close()
-			return nil, fmt.Errorf("Client.Connect: %v", err)
+			return fmt.Errorf("Client.Connect: %v", err)
 		}
 	case <-time.After(5 * time.Second):
-		s.close()
-		return nil, fmt.Errorf("Client.Connect did not return")
+		return fmt.Errorf("Client.Connect did not return")
 	}
-	return s, nil
+	return nil
+}
+
+// redial: the application disconnects and connects the same Client object again
+// (same client identifier); the server answers SessionPresent=0.
+func (s *session) redial(clean bool) error {
+	s.cl.Disconnect()
+	s.srv.Close()
+	cm := message.NewConnectMessage()
+	cm.SetVersion(4)
+	cm.SetCleanSession(clean)
+	cm.SetClientID([]byte(s.id))
+	cm.SetKeepAlive(120)
+	return s.dial(cm, nil)
 }
 
 // ---- C12 --------------------------------------------------------------------------
@@ -92,6 +111,18 @@ type Req struct {
 	Forced bool   `json:"forced,omitempty"` // the ack is processed before the sending call registered the request
 	DupRec bool   `json:"duprec,omitempty"` // pub2: PUBREC sent twice
 	CbErr  bool   `json:"cberr,omitempty"`  // the application's completion callback returns an error (its own business: the other requests' completions are not affected)
+	// Unsendable: the request is larger than the client's buffers, the sending call
+	// returns an error and nothing is sent: no completion for it, and it must not
+	// stand in the way of the requests behind it
+	Unsendable bool `json:"unsendable,omitempty"`
+	// NoCb: the request is issued without a completion callback (nothing to fire,
+	// and nothing that may stand in the way of the others either)
+	NoCb bool `json:"nocb,omitempty"`
+	// sub: number of filters beyond the first (0-2) and which of them the server
+	// refuses (SUBACK return code 0x80, bit k = filter k); a refusal is a terminal
+	// acknowledgement like any other
+	MoreFilters int `json:"more_filters,omitempty"`
+	Refuse      int `json:"refuse,omitempty"`
 }
 
 type C12Case struct {
@@ -175,6 +206,12 @@ func runC12(c C12Case) (res c12result) {
 			return nil
 		}
 	}
+	cbOf := func(i int) service.OnCompleteFunc {
+		if c.Reqs[i].NoCb {
+			return nil
+		}
+		return onComplete(i)
+	}
 	issue := func(i int) error {
 		r := c.Reqs[i]
 		switch r.Kind {
@@ -182,18 +219,30 @@ func runC12(c C12Case) (res c12result) {
 			m := message.NewPublishMessage()
 			m.SetTopic([]byte(fmt.Sprintf("c12/t/%d", i)))
 			m.SetPayload([]byte(fmt.Sprintf("payload-%d", i)))
+			if r.Unsendable {
+				m.SetPayload(make([]byte, 20000)) // the client's buffers hold 16384 bytes
+			}
 			m.SetQoS(byte(r.Kind[3] - '0'))
-			return s.cl.Publish(m, onComplete(i))
+			return s.cl.Publish(m, cbOf(i))
 		case "sub":
 			m := message.NewSubscribeMessage()
 			m.AddTopic([]byte(fmt.Sprintf("c12/f/%d", i)), 1)
-			return s.cl.Subscribe(m, onComplete(i), func(*message.PublishMessage) error { return nil })
+			for k := 0; k < r.MoreFilters; k++ {
+				m.AddTopic([]byte(fmt.Sprintf("c12/f/%d/more/%d", i, k)), byte(k%3))
+			}
+			for k := 0; r.Unsendable && k < 400; k++ {
+				m.AddTopic([]byte(fmt.Sprintf("c12/a-rather-long-filter-to-fill-the-packet/%d/%d/+/#", i, k)), 1)
+			}
+			return s.cl.Subscribe(m, cbOf(i), func(*message.PublishMessage) error { return nil })
 		case "unsub":
 			m := message.NewUnsubscribeMessage()
 			m.AddTopic([]byte(fmt.Sprintf("c12/f/%d", i)))
-			return s.cl.Unsubscribe(m, onComplete(i))
+			for k := 0; r.Unsendable && k < 400; k++ {
+				m.AddTopic([]byte(fmt.Sprintf("c12/a-rather-long-filter-to-fill-the-packet/%d/%d/+/#", i, k)))
+			}
+			return s.cl.Unsubscribe(m, cbOf(i))
 		default:
-			return s.cl.Ping(onComplete(i))
+			return s.cl.Ping(cbOf(i))
 		}
 	}
 	// takeRequest reads request i from the wire and learns its identifier.
@@ -243,7 +292,17 @@ func runC12(c C12Case) (res c12result) {
 			send(&codec.Packet{Type: codec.PUBCOMP, PacketID: ids[i]})
 		case "sub":
 			termSent[i].Store(true)
-			send(&codec.Packet{Type: codec.SUBACK, PacketID: ids[i], ReturnCodes: []byte{1}})
+			codes := []byte{1}
+			for k := 0; k < r.MoreFilters; k++ {
+				codes = append(codes, byte(k%3))
+			}
+			for k := range codes {
+				if r.Refuse>>k&1 == 1 {
+					codes[k] = 0x80
+					cls["suback-with-a-refused-filter"] = true
+				}
+			}
+			send(&codec.Packet{Type: codec.SUBACK, PacketID: ids[i], ReturnCodes: codes})
 		case "unsub":
 			termSent[i].Store(true)
 			send(&codec.Packet{Type: codec.UNSUBACK, PacketID: ids[i]})
@@ -258,11 +317,18 @@ func runC12(c C12Case) (res c12result) {
 	}
 	var pending []int
 	for i, r := range c.Reqs {
+		if r.Unsendable {
+			if err := issue(i); err == nil {
+				return c12result{Incon: fmt.Sprintf("request %d (%s) is larger than the client's buffers, yet the sending call reported success", i, r.Kind)}
+			}
+			cls["unsendable-request-among-the-others"] = true
+			continue
+		}
 		if r.Kind == "pub0" {
 			if err := issue(i); err != nil {
 				return c12result{Fail: fmt.Sprintf("request %d (pub0): %v", i, err)}
 			}
-			if fired[i].Load() != 1 {
+			if fired[i].Load() != 1 && !r.NoCb {
 				return c12result{Fail: fmt.Sprintf("request %d: a QoS 0 publish must complete as soon as it is queued, its completion callback fired %d times inside Publish", i, fired[i].Load())}
 			}
 			if f := takeRequest(i); f != "" {
@@ -340,9 +406,48 @@ func runC12(c C12Case) (res c12result) {
 	if len(order) > 16 {
 		cls[">16-requests-in-flight"] = true
 	}
-	for _, i := range order {
+	group := func(kind string) string {
+		if kind == "pub1" || kind == "pub2" {
+			return "pub"
+		}
+		return kind
+	}
+	// due reports the requests whose completion is due: their terminal acknowledgement
+	// and those of all earlier requests of the same kind have been sent
+	due := func() (out []int) {
+		open := map[string]bool{}
+		for j, r := range c.Reqs {
+			if r.Unsendable || r.Kind == "pub0" {
+				continue
+			}
+			if !termSent[j].Load() {
+				open[group(r.Kind)] = true
+			} else if !open[group(r.Kind)] && !r.NoCb {
+				out = append(out, j)
+			}
+		}
+		return out
+	}
+	for n, i := range order {
 		if f := acknowledge(i, false); f != "" {
 			return c12result{Fail: f}
+		}
+		if n == len(order)-1 {
+			break // the final flush below judges the complete set
+		}
+		// the library answers the server's PINGREQ after it has processed the acknowledgement
+		s.srv.SendRaw([]byte{0xC0, 0})
+		if _, err := s.srv.Take(func(p *codec.Packet) bool { return p.Type == codec.PINGRESP }, 5*time.Second); err != nil {
+			if se := s.srv.StreamErr(); se != nil {
+				return c12result{Fail: "the client sent a malformed stream: " + se.Error()}
+			}
+			return c12result{Incon: "round trip after an acknowledgement failed: " + err.Error()}
+		}
+		for _, j := range due() {
+			if fired[j].Load() == 0 {
+				cls["completion-due-while-other-kinds-are-open"] = true
+				return c12result{Fail: fmt.Sprintf("request %d (%s, id %d): its terminal acknowledgement and those of all earlier %s requests have arrived and been processed (the client has answered a later PINGREQ), yet its completion callback has not fired; still unacknowledged are only requests of other kinds or later ones", j, c.Reqs[j].Kind, ids[j], group(c.Reqs[j].Kind))}
+			}
 		}
 	}
 	// flush: the library answers a PINGREQ; its PINGRESP proves all earlier acks were processed
@@ -357,10 +462,25 @@ func runC12(c C12Case) (res c12result) {
 		if early[i].Load() {
 			return c12result{Fail: fmt.Sprintf("request %d (%s): the completion callback fired before the terminal acknowledgement was sent", i, r.Kind)}
 		}
+		if r.NoCb {
+			continue
+		}
+		if r.Unsendable {
+			if got := fired[i].Load(); got != 0 {
+				return c12result{Fail: fmt.Sprintf("request %d (%s) could not be sent (the sending call returned an error, nothing was acknowledged), yet its completion callback fired %d time(s)", i, r.Kind, got)}
+			}
+			continue
+		}
 		if got := fired[i].Load(); got != 1 {
 			how := "after all acknowledgements had been sent and processed"
 			if r.Forced {
 				how = "its acknowledgement was processed while the sending call had written the request but not yet registered it"
+			}
+			for j := 0; j < i; j++ {
+				if c.Reqs[j].Unsendable && c.Reqs[j].Kind == r.Kind {
+					how += fmt.Sprintf("; request %d of the same kind before it could not be sent and was never acknowledged", j)
+					break
+				}
 			}
 			return c12result{Fail: fmt.Sprintf("request %d (%s, id %d): the completion callback fired %d times (%s)", i, r.Kind, ids[i], got, how)}
 		}
@@ -407,6 +527,16 @@ func genC12(t *rapid.T) C12Case {
 		}
 		if k != "pub0" {
 			r.CbErr = rapid.IntRange(0, 4).Draw(t, "cberr") == 0
+		}
+		if k == "sub" && rapid.Bool().Draw(t, "subshape") {
+			r.MoreFilters = rapid.IntRange(0, 2).Draw(t, "morefilters")
+			r.Refuse = rapid.IntRange(0, 1<<(r.MoreFilters+1)-1).Draw(t, "refuse")
+		}
+		if k != "ping" && rapid.IntRange(0, 9).Draw(t, "unsendable") == 0 {
+			r = Req{Kind: k, Unsendable: true}
+		}
+		if rapid.IntRange(0, 7).Draw(t, "nocb") == 0 {
+			r.NoCb, r.CbErr = true, false
 		}
 		c.Reqs = append(c.Reqs, r)
 	}
